@@ -659,3 +659,35 @@ pub(crate) fn memchr_naive(x: u8, text: &[u8]) -> Option<usize> {
     }
     None
 }
+
+/// Replacement for `alloc::fmt::format` that keeps the text: formats through `core::fmt::write` into a fixed
+/// 96-byte buffer (no growing heap String, which is what makes the real one expensive) and copies the result.
+pub(crate) fn fmt_format_bounded(args: core::fmt::Arguments<'_>) -> String {
+    struct Sink {
+        buf: [u8; 96],
+        len: usize,
+    }
+    impl core::fmt::Write for Sink {
+        fn write_str(&mut self, s: &str) -> core::fmt::Result {
+            let b = s.as_bytes();
+            let mut i = 0;
+            while i < b.len() {
+                if self.len < 96 {
+                    self.buf[self.len] = b[i];
+                    self.len += 1;
+                }
+                i += 1;
+            }
+            Ok(())
+        }
+    }
+    let mut s = Sink { buf: [0; 96], len: 0 };
+    let _ = core::fmt::write(&mut s, args);
+    let mut v = Vec::with_capacity(96);
+    let mut i = 0;
+    while i < s.len {
+        v.push(s.buf[i]);
+        i += 1;
+    }
+    unsafe { String::from_utf8_unchecked(v) }
+}
